@@ -63,6 +63,7 @@ var (
 
 type Cookie = http.Cookie
 
+//go:norace
 func ProxyFromEnvironment(*http.Request) (*url.URL, error) { return nil, nil }
 
 // Reply is what the scripted server decides for one request.
@@ -85,7 +86,9 @@ var (
 )
 
 // Use installs the server every Transport talks to.
-func Use(s Server) { mu.Lock(); srv = s; mu.Unlock() }
+//
+//go:norace
+func Use(s Server) { lk(&mu); srv = s; ul(&mu) }
 
 type Transport struct {
 	Proxy                 func(*http.Request) (*url.URL, error)
@@ -101,6 +104,7 @@ type Transport struct {
 
 var ErrReset = errors.New("read tcp: connection reset by peer")
 
+//go:norace
 func (t *Transport) RoundTrip(req *http.Request) (*http.Response, error) {
 	simrt.Yield("simhttp.roundtrip")
 	// like the real transport: a request whose context is already done is not sent at all
@@ -118,9 +122,9 @@ func (t *Transport) RoundTrip(req *http.Request) (*http.Response, error) {
 		body, _ = ioutil.ReadAll(req.Body)
 		req.Body.Close()
 	}
-	mu.Lock()
+	lk(&mu)
 	s := srv
-	mu.Unlock()
+	ul(&mu)
 	if s == nil {
 		return nil, errors.New("simhttp: no server")
 	}
@@ -149,3 +153,12 @@ func (t *Transport) RoundTrip(req *http.Request) (*http.Response, error) {
 	return &http.Response{Status: http.StatusText(rep.Status), StatusCode: rep.Status, Proto: "HTTP/1.1", ProtoMajor: 1, ProtoMinor: 1,
 		Header: http.Header{}, Body: ioutil.NopCloser(bytes.NewReader([]byte(rep.Body))), ContentLength: int64(len(rep.Body)), Request: req}, nil
 }
+
+// lk/ul bracket the device's own critical sections; in a race build they are invisible to the race detector (simrt.SyncOff),
+// like the kernel's locks would be: a device must not order the tasks that use it.
+//
+//go:norace
+func lk(m *sync.Mutex) { simrt.SyncOff(); m.Lock() }
+
+//go:norace
+func ul(m *sync.Mutex) { m.Unlock(); simrt.SyncOn() }
